@@ -932,8 +932,56 @@ func emitConsts(repo, out string) error {
 			})
 		}
 	}
+	// SubscribeWithReplay's live handler: "read bus.lastOffset, SaveOffset" inside one critical section of a
+	// mutex local to the subscription: <m>.Lock() … defer <m>.Unlock() … bus.lastOffset … SaveOffset(…)
+	liveSaveSerialised := false
+	for _, d := range f.Decls {
+		fd, ok := d.(*ast.FuncDecl)
+		if !ok || fd.Name.Name != "SubscribeWithReplay" || fd.Body == nil {
+			continue
+		}
+		ast.Inspect(fd.Body, func(n ast.Node) bool {
+			lit, ok := n.(*ast.FuncLit)
+			if !ok {
+				return true
+			}
+			var lockPos, deferPos, readPos, savePos, unlockPos token.Pos
+			lockName := ""
+			ast.Inspect(lit.Body, func(m ast.Node) bool {
+				switch y := m.(type) {
+				case *ast.DeferStmt:
+					if sel, ok := y.Call.Fun.(*ast.SelectorExpr); ok && sel.Sel.Name == "Unlock" && exprString(sel.X) == lockName && lockName != "" {
+						deferPos = y.Pos()
+						return false
+					}
+				case *ast.CallExpr:
+					if sel, ok := y.Fun.(*ast.SelectorExpr); ok {
+						switch {
+						case sel.Sel.Name == "Lock" && !strings.Contains(exprString(sel.X), "storeMu") && lockPos == 0:
+							lockPos, lockName = y.Pos(), exprString(sel.X)
+						case sel.Sel.Name == "Unlock" && exprString(sel.X) == lockName && unlockPos == 0:
+							unlockPos = y.Pos() // an explicit (non-deferred) unlock
+						case sel.Sel.Name == "SaveOffset":
+							savePos = y.Pos()
+						}
+					}
+				case *ast.SelectorExpr:
+					if y.Sel.Name == "lastOffset" && readPos == 0 {
+						readPos = y.Pos()
+					}
+				}
+				return true
+			})
+			if savePos != 0 && readPos != 0 {
+				liveSaveSerialised = lockPos != 0 && lockPos < readPos && readPos < savePos &&
+					((deferPos != 0 && deferPos < readPos) || (unlockPos != 0 && unlockPos > savePos))
+			}
+			return true
+		})
+	}
 	var sb strings.Builder
 	sb.WriteString("/- GENERATED by /verif/go/extract; do not edit. Constants of the Go source that the models hard-code. -/\nnamespace Ebu.Generated.Consts\n\n")
+	sb.WriteString(fmt.Sprintf("/-- the live handler of SubscribeWithReplay reads `bus.lastOffset` and calls `SaveOffset` inside one critical section of a per-subscription mutex -/\ndef liveSaveSerialised : Bool := %v\n\n", liveSaveSerialised))
 	sb.WriteString(fmt.Sprintf("/-- `inflight.done`: the call on the condition variable when the count reaches zero; `inflight.wait`: cond.Wait() sits in `for c.n > 0` -/\ndef inflightDoneWake : String := %q\ndef inflightWaitRechecks : Bool := %v\n\n", doneWake, waitRechecks))
 	sb.WriteString(fmt.Sprintf("/-- getShard: index = fnv.New32a(eventType.String()) & (numShards - 1) -/\ndef shardIndexIsMask : Bool := %v\ndef shardHashIsFnv1a32 : Bool := %v\ndef shardKeyIsTypeString : Bool := %v\n\n", shardMask, shardFnv, shardKeyString))
 	sb.WriteString(fmt.Sprintf("/-- `fmt.Sprintf(%s, …)` in MemoryStore.Append -/\ndef memOffsetFormat : String := %s\ndef memOffsetWidth : Nat := %d\ndef memOffsetZeroPadded : Bool := %v\n\n", strconv.Quote(memFmt), strconv.Quote(memFmt), width, padded))
